@@ -66,21 +66,30 @@ def leftovers {α : Type} (c : List (Ent α)) : Nat :=
   | some p => p + 1
   | none => c.length
 
+/-- "we thought we had leftovers but that was actually a full row": `rep_index[len - 2] += 1; rep_index[len - 1] = 0`
+    when the leftovers recorded for the previous chunk are not 0 -/
+def settleLast (acc : List (Nat × Nat)) : List (Nat × Nat) :=
+  match acc.getLast? with
+  | some (r, l) => if l ≠ 0 then acc.dropLast ++ [(r + 1, 0)] else acc
+  | none => acc
+
+/-- does the chunk begin with a row start (`rep_values.first() == Some(&max_rep)`) -/
+def headStarts {α : Type} (c : List (Ent α)) : Bool := (c.head?.map (·.start)).getD false
+
+/-- rows that start in the given levels (`filter(|v| **v == max_rep).count()`) -/
+def startCount {α : Type} (c : List (Ent α)) : Nat := (c.filter (·.start)).length
+
 /-- `compress_levels`, the repetition-index part: one `(rows finished in the chunk, leftover levels)` pair per
-    chunk.  `acc` is the index built so far (most recent chunk LAST), `first` = `chunk_idx == 0`. -/
+    chunk.  `acc` is the index built so far (most recent chunk LAST), `first` = `chunk_idx == 0`.
+    A chunk that starts with a new row settles the pair of the previous chunk first. -/
 def buildRepIndexAux {α : Type} : List (List (Ent α)) → Bool → List (Nat × Nat) → List (Nat × Nat)
   | [], _, acc => acc
   | c :: rest, first, acc =>
-    -- a chunk that starts with a new row: leftovers recorded for the previous chunk were a whole row
-    let acc' :=
-      if !first && (c.head?.map (·.start)).getD false then
-        match acc.getLast? with
-        | some (r, l) => if l ≠ 0 then acc.dropLast ++ [(r + 1, 0)] else acc
-        | none => acc
-      else acc
-    let numRows := ((c.drop 1).filter (·.start)).length
-    if rest.isEmpty then acc' ++ [(numRows + 1, 0)]
-    else buildRepIndexAux rest false (acc' ++ [(numRows, leftovers c)])
+    if rest.isEmpty then
+      (if !first && headStarts c then settleLast acc else acc) ++ [(startCount (c.drop 1) + 1, 0)]
+    else
+      buildRepIndexAux rest false
+        ((if !first && headStarts c then settleLast acc else acc) ++ [(startCount (c.drop 1), leftovers c)])
 
 def buildRepIndex {α : Type} (chunks : List (List (Ent α))) : List (Nat × Nat) :=
   buildRepIndexAux chunks true []
@@ -165,11 +174,12 @@ def schedRanges (blocks : List Block) : List Rg → Option (List Instr)
     | some a, some b => some (a ++ b)
     | _, _ => none
 
-/-- `ChunkInstructions::schedule_instructions(rep_index, user_ranges)` -/
+/-- `ChunkInstructions::schedule_instructions(rep_index, user_ranges)`.  With more than one range the instructions
+    are merged; `instructions_iter.next().unwrap()` panics when there is none (`none`). -/
 def scheduleInstructions (blocks : List Block) (rs : List Rg) : Option (List Instr) :=
   match schedRanges blocks rs with
   | none => none
-  | some l => some (if rs.length > 1 then mergeInstrs l else l)
+  | some l => if rs.length > 1 then (if l.isEmpty then none else some (mergeInstrs l)) else some l
 
 /-! ## draining -/
 
